@@ -7,7 +7,7 @@
     symlink targets, entry position, [inv_b] of the copy), not proved.  What is
     proved is what makes "the whole tree" follow from that contract. *)
 Require Import AT.Model.Base AT.Model.Heap AT.Model.Pickle AT.Spec.MutSpec.
-Require AT.Proofs.PickleProofs AT.Proofs.MutHistory.
+Require AT.Proofs.PickleProofs AT.Proofs.MutHistory AT.Proofs.CopyIso.
 Import AT.Proofs.PickleProofs.
 
 (** in a consistent forest every node of the entry node's tree is reachable
@@ -22,6 +22,24 @@ Print Assumptions C19_reach_covers_tree.
 Theorem C19_reach_targets : forall h tg e x t, Reach h tg e x -> target_of tg x = Some t -> Reach h tg e t.
 Proof. exact reach_target. Qed.
 Print Assumptions C19_reach_targets.
+
+(** an isomorphic copy of a closed part (whole trees) of a consistent forest
+    is a consistent forest: the clauses of the copier's contract that the
+    correspondence check evaluates on every observed copy (closed domain,
+    injective renaming onto the copy universe, same parent, same ordered
+    children) imply the C01 invariant of the copy *)
+Theorem C19_isomorphic_copy_consistent : forall (h h' : heap) (dom : list id) (ren : id -> id),
+  Inv h ->
+  (forall x p, In x dom -> parent h x = Some p -> In p dom) ->
+  (forall x c, In x dom -> In c (children h x) -> In c dom) ->
+  (forall x, In x dom -> ren x < length h') ->
+  (forall x y, In x dom -> In y dom -> ren x = ren y -> x = y) ->
+  (forall y, y < length h' -> exists x, In x dom /\ ren x = y) ->
+  (forall x, In x dom -> parent h' (ren x) = option_map ren (parent h x)) ->
+  (forall x, In x dom -> children h' (ren x) = map ren (children h x)) ->
+  Inv h'.
+Proof. exact AT.Proofs.CopyIso.copy_inv. Qed.
+Print Assumptions C19_isomorphic_copy_consistent.
 
 (** the boolean evaluated on the copy's link maps is the C01 invariant *)
 Theorem C19_copy_consistency_check_sound : forall h, inv_b h = true -> Inv h.
